@@ -13,6 +13,8 @@ pub fn rewrite(kind: &str, k: usize, src: &str) -> Option<String> {
     if k > cs.len() { return None; }
     let pre: String = cs[..k].iter().collect();
     let post: String = cs[k..].iter().collect();
+    // `blank`, `commentline`, `commentlinep` take a run length 1..4 as a trailing digit (`blank3` = three blank lines)
+    let (kind, n) = match kind.char_indices().last() { Some((i, d)) if d.is_ascii_digit() => (&kind[..i], d.to_digit(10).unwrap() as usize), _ => (kind, 1) };
     Some(match kind {
         // a line comment at the end of the line that contains offset k (k = offset of that line's `\n`)
         "comment" => format!("{} # c é{}", pre, post),
@@ -20,9 +22,16 @@ pub fn rewrite(kind: &str, k: usize, src: &str) -> Option<String> {
         // trailing spaces before a line break
         "spaces" => format!("{}   {}", pre, post),
         // a blank line after a line break (k = offset just after a `\n`)
-        "blank" => format!("{}\n{}", pre, post),
+        "blank" => format!("{}{}{}", pre, "\n".repeat(n), post),
         // a comment-only line indented like the line that follows it (k = offset just after a `\n`)
-        "commentline" => { let n = cs[k..].iter().take_while(|c| **c == ' ').count(); format!("{}{}# c\n{}", pre, " ".repeat(n), post) }
+        "commentline" => { let ind = cs[k..].iter().take_while(|c| **c == ' ').count(); format!("{}{}{}", pre, format!("{}# c\n", " ".repeat(ind)).repeat(n), post) }
+        // comment-only lines indented like the line that PRECEDES them (e.g. the block opener)
+        "commentlinep" => {
+            if k == 0 || cs[k - 1] != '\n' { return None; }
+            let ls = cs[..k - 1].iter().rposition(|c| *c == '\n').map(|i| i + 1).unwrap_or(0);
+            let ind = cs[ls..].iter().take_while(|c| **c == ' ').count();
+            format!("{}{}{}", pre, format!("{}# c\n", " ".repeat(ind)).repeat(n), post)
+        }
         // a comment-only line starting in column 0
         "commentline0" => format!("{}# c\n{}", pre, post),
         // backslash continuation between two tokens of an expression (k = offset of a space between them): ` \` + line break
@@ -102,12 +111,16 @@ fn gen_expr(rng: &mut Rng, o: &mut String) {
 fn gen_program(rng: &mut Rng) -> String {
     let mut o = String::from("x = 1\ny = 2\nn = 3\nf a = a\n");
     for _ in 0..(1 + rng.below(4)) {
-        match rng.below(6) {
+        match rng.below(10) {
             0 | 1 => { o.push_str(pk(rng, &["z", "w", "q"])); o.push_str(" = "); gen_expr(rng, &mut o); o.push('\n'); }
             2 => { o.push_str("print! "); gen_expr(rng, &mut o); o.push_str(", "); gen_expr(rng, &mut o); o.push('\n'); }
             3 => { o.push_str("g a, b =\n    c = "); gen_expr(rng, &mut o); o.push_str("\n    c + a\n"); }
             4 => { o.push_str("if x == 1, do:\n    print! "); gen_expr(rng, &mut o); o.push('\n'); }
-            _ => { o.push_str("h = i ->\n    j = i + 1\n    if j == 2:\n        do: j\n        do: "); gen_expr(rng, &mut o); o.push('\n'); }
+            5 => { o.push_str("h = i ->\n    j = i + 1\n    if j == 2:\n        do: j\n        do: "); gen_expr(rng, &mut o); o.push('\n'); }
+            6 => { o.push_str("p! a =>\n    print! a\n    print! "); gen_expr(rng, &mut o); o.push('\n'); }
+            7 => { o.push_str("for! 0..<2, i =>\n    print! i, "); gen_expr(rng, &mut o); o.push('\n'); }
+            8 => { o.push_str("if! x == 1:\n    do!:\n        print! "); gen_expr(rng, &mut o); o.push_str("\n    do!:\n        print! y\n"); }
+            _ => { o.push_str("C = Class {.a = Int}\nC.\n    m self =\n        k = self.a\n        k + "); gen_expr(rng, &mut o); o.push('\n'); }
         }
     }
     o
@@ -115,6 +128,7 @@ fn gen_program(rng: &mut Rng) -> String {
 
 /// candidate offsets for a rewrite kind, from the real lexer's token positions
 fn candidates(kind: &str, src: &str) -> Vec<usize> {
+    let kind = kind.trim_end_matches(|c: char| c.is_ascii_digit());
     let cs: Vec<char> = erg_common::normalize_newline(src).chars().collect();
     let mut line_start = vec![0usize];
     for (i, c) in cs.iter().enumerate() { if *c == '\n' { line_start.push(i + 1); } }
@@ -125,7 +139,7 @@ fn candidates(kind: &str, src: &str) -> Vec<usize> {
         let Some(o) = off(t) else { continue };
         match kind {
             "comment" | "comment0" | "spaces" => if t.kind == TokenKind::Newline { v.push(o); },
-            "blank" | "commentline" | "commentline0" => if t.kind == TokenKind::Newline { v.push(o + 1); },
+            "blank" | "commentline" | "commentlinep" | "commentline0" => if t.kind == TokenKind::Newline { v.push(o + 1); },
             "cont" | "cont0" => if i > 0 && o > 0 && cs.get(o - 1) == Some(&' ') && !matches!(t.kind, TokenKind::Newline | TokenKind::Indent | TokenKind::Dedent | TokenKind::EOF)
                 && !matches!(ts[i - 1].kind, TokenKind::Newline | TokenKind::Indent | TokenKind::Dedent) { v.push(o - 1); },
             "mlcomment" | "mlcomment-sp" => if !matches!(t.kind, TokenKind::Newline | TokenKind::Indent | TokenKind::Dedent | TokenKind::EOF | TokenKind::StrInterpMid | TokenKind::StrInterpRight)
@@ -146,12 +160,30 @@ fn main() {
     match a.mode.as_str() {
         "gen" => {
             let mut rng = Rng(Rng::new(a.seed).next());
-            let kinds = ["comment", "comment0", "spaces", "blank", "commentline", "commentline", "commentline0", "cont", "cont", "cont0", "mlcomment", "mlcomment", "mlcomment-sp", "parens", "parens"];
+            let kinds = ["comment", "comment0", "spaces", "blank", "blank2", "blank3", "blank4", "commentline", "commentline2", "commentline3", "commentline4",
+                "commentlinep", "commentlinep2", "commentlinep3", "commentline0", "cont", "cont", "cont0", "mlcomment", "mlcomment", "mlcomment-sp", "parens", "parens"];
+            // corpus programs: `--corpus <dir>` (the repository's examples and should_ok tests) — files that lex and parse, at most 4000 characters
+            let mut corpus: Vec<String> = vec![];
+            if let Some(i) = a.rest.iter().position(|x| x == "--corpus") {
+                for d in a.rest[i + 1..].iter() {
+                    let mut names: Vec<_> = std::fs::read_dir(d).map(|r| r.filter_map(|e| e.ok()).map(|e| e.path()).collect()).unwrap_or_default();
+                    names.sort();
+                    for f in names {
+                        if f.extension().map(|e| e == "er").unwrap_or(false) {
+                            if let Ok(t) = std::fs::read_to_string(&f) {
+                                let t2 = t.clone();
+                                if t.chars().count() <= 4000 && !t.contains('\t') && catch(move || SimpleParser::parse(t2).is_ok()).unwrap_or(false) { corpus.push(t); }
+                            }
+                        }
+                    }
+                }
+            }
+            eprintln!("corpus programs: {}", corpus.len());
             let mut i = 0;
             let mut guard = 0;
             while i < a.n && guard < a.n * 20 {
                 guard += 1;
-                let s = gen_program(&mut rng);
+                let s = if !corpus.is_empty() && rng.chance(1, 4) { corpus[rng.below(corpus.len() as u64) as usize].clone() } else { gen_program(&mut rng) };
                 let kind = pk(&mut rng, &kinds);
                 let c = candidates(kind, &s);
                 if c.is_empty() { continue; }
